@@ -1,6 +1,6 @@
 (* Cancel/ProofsWR.v — lemmas about the WRITER/READER machine and the stamp rule (C20). *)
 From Salsa Require Import Base.
-From Salsa.Cancel Require Import TokK Model ProofsTok.
+From Salsa.Cancel Require Import Model ProofsTok.
 
 (* ---------- list-of-handles plumbing ---------- *)
 
